@@ -50,6 +50,31 @@ fn main() {
             let skip: Vec<u64> = args.get(8).map(|s| s.split(',').filter_map(|x| x.parse().ok()).collect()).unwrap_or_default();
             runner::worker(p.as_ref(), tier, seed, shard, nshards, out, &skip);
         }
+        "witnesses" => {
+            // witnesses <prop>: run every pinned witness of the property and print what it produces
+            let p = props::get(&args[2]).expect("prop");
+            runner::install_panic_hook();
+            runner::install_log_sink();
+            for f in runner::load_findings().iter().filter(|f| f.property == args[2] && !f.witness.is_null()) {
+                let witness: serde_json::Value = match f.witness["file"].as_str() {
+                    Some(path) => std::fs::read(format!("{}/{}", std::env::var("VERIF_DIR").unwrap_or_else(|_| "/verif".into()), path))
+                        .ok()
+                        .and_then(|b| serde_json::from_slice(&b).ok())
+                        .unwrap_or(serde_json::Value::Null),
+                    None => f.witness.clone(),
+                };
+                let r = runner::catch(|| p.run_witness(&witness));
+                let sigs: Vec<String> = match r {
+                    Ok(Some(o)) => o.violations.iter().map(|v| v.sig.clone()).collect(),
+                    Ok(None) => vec!["<witness not runnable>".into()],
+                    Err(pi) => vec![format!("uncaught-{}", pi.sig())],
+                };
+                println!("[{}] {} => {:?}", f.status, f.signature, sigs);
+            }
+        }
+        "c04one" => {
+            props::scen::child_main(args[2].parse().unwrap(), args[3].parse().unwrap(), args[4].parse().unwrap());
+        }
         "replay" => {
             let p = props::get(&args[2]).expect("prop");
             std::process::exit(runner::replay(p.as_ref(), &args[3]));
